@@ -65,6 +65,7 @@ def main(argv=None) -> int:
     parser.add_argument("--replay")
     parser.add_argument("--src", default=None)
     parser.add_argument("--no-evidence", action="store_true")
+    parser.add_argument("--no-canary", action="store_true")
     parser.add_argument("--list", action="store_true")
     parser.add_argument("--verbose", "-v", action="store_true")
     args = parser.parse_args(argv)
@@ -104,6 +105,19 @@ def main(argv=None) -> int:
                 known_hits.append((finding, text))
             else:
                 violations.append(finding)
+
+    # positive examples of the absence rules (every tier)
+    canaries = []
+    if not args.no_canary:
+        from . import mutate as _mutate
+
+        try:
+            canary_rules = [r for r, _s in rule_list(prop_id) if r in _mutate.CANARY_RULES]
+            canary_errors = _mutate.run_canaries(canary_rules, prog)
+            canaries = [r for r in dict.fromkeys(canary_rules)]
+            errors.extend(canary_errors)
+        except Exception as err:  # noqa: BLE001
+            errors.append(f"CANARY: analyser raised {type(err).__name__}: {err}")
 
     selftest = None
     if args.tier == "thorough" and not errors:
@@ -152,6 +166,8 @@ def main(argv=None) -> int:
         print(f"ANALYSIS-ERROR property={prop_id} {first}")
         if rest:
             print(rest)
+    if canaries:
+        print(f"  canaries: positive example fired for {len(canaries)} absence rule(s): {' '.join(canaries)}")
     if selftest is not None:
         print(
             f"  self-test: {selftest['mutants']} mutants ({selftest['mutants_flagged']} flagged), "
@@ -161,7 +177,7 @@ def main(argv=None) -> int:
             print(f"SELFTEST-GAP property={prop_id} {gap}")
 
     if not args.no_evidence:
-        write_evidence(prop_id, args.tier, seed, prog, results, errors, violations, known_hits, selftest, timer)
+        write_evidence(prop_id, args.tier, seed, prog, results, errors, violations, known_hits, selftest, timer, canaries)
 
     if violations:
         return 1
@@ -170,7 +186,7 @@ def main(argv=None) -> int:
     return 0
 
 
-def write_evidence(prop_id, tier, seed, prog, results, errors, violations, known_hits, selftest, timer) -> None:
+def write_evidence(prop_id, tier, seed, prog, results, errors, violations, known_hits, selftest, timer, canaries=()) -> None:
     stats = prog.stats()
     obligations = [o for r in results for o in r.obligations]
     distinct = {(o.rule, o.construct) for o in obligations if o.nontrivial}
@@ -212,6 +228,12 @@ def write_evidence(prop_id, tier, seed, prog, results, errors, violations, known
         "known_findings_reported": [f.key() for f, _t in known_hits],
         "violations_reported": [f.to_json() for f in violations],
         "exhaustive": True,
+    }
+    coverage["canaries"] = {
+        "rule": "each absence rule (expected number of matches on a healthy tree: zero) is also run on one in-memory "
+        "variant of the current source that contains the forbidden construct; it must report it, otherwise the run "
+        "is an analysis error",
+        "fired": list(canaries),
     }
     if selftest is not None:
         coverage["selftest"] = selftest
